@@ -69,6 +69,24 @@ theorem mem_parOutcomes {c : Cfg} {s : St} {a b : Op} {o : POut} (h : o ∈ parO
   obtain ⟨chs, _, ho⟩ := h
   exact ⟨chs, ho⟩
 
+theorem length_of_mem_allChoices : ∀ (n : Nat) (l : List Bool), l ∈ allChoices n → l.length = n := by
+  intro n
+  induction n with
+  | zero => intro l h; simp [allChoices] at h; subst h; rfl
+  | succ n ih =>
+    intro l h
+    simp only [allChoices, List.mem_flatMap] at h
+    obtain ⟨l', hl', hm⟩ := h
+    simp only [List.mem_cons, List.mem_nil_iff, or_false] at hm
+    rcases hm with rfl | rfl <;> simp [ih l' hl']
+
+theorem mem_parOutcomes_len {c : Cfg} {s : St} {a b : Op} {o : POut} (h : o ∈ parOutcomes c s a b) :
+    ∃ chs, chs.length = (partsOf s.kind a).length + (partsOf s.kind b).length ∧
+      o ∈ POut.ofRun s.out.length (parRun c s a b chs) := by
+  simp only [parOutcomes, List.mem_eraseDups, List.mem_flatMap] at h
+  obtain ⟨chs, hc, ho⟩ := h
+  exact ⟨chs, by simpa [parStart] using length_of_mem_allChoices _ chs hc, ho⟩
+
 theorem mem_allChoices (l : List Bool) : l ∈ allChoices l.length := by
   induction l with
   | nil => simp [allChoices]
@@ -85,27 +103,101 @@ theorem parOutcomes_of_run {c : Cfg} {s : St} {a b : Op} {o : POut} (chs : List 
   rw [hn] at this
   simpa [parStart] using this
 
-/-- what an overlap leaves behind, from a property every move keeps -/
+/-- every move serves one part of a request that has one left -/
+theorem move_progress (c : Cfg) (cf cf' : Conf) (ch : Bool) (h : cf.move c ch = .ok cf') :
+    cf'.pa.length + cf'.pb.length + 1 ≤ cf.pa.length + cf.pb.length ∨ (cf.pa = [] ∧ cf.pb = [] ∧ cf' = cf) := by
+  simp only [Conf.move, Conf.pickA] at h
+  cases hpa : cf.pa with
+  | nil =>
+    cases hpb : cf.pb with
+    | nil => simp only [hpa, hpb] at h; cases h; exact Or.inr ⟨rfl, rfl, rfl⟩
+    | cons q r =>
+      simp only [hpa, hpb] at h
+      cases hp : pstep c cf.s q with
+      | halt x => simp [hp] at h
+      | next s' ans drop =>
+        simp only [hp, Bool.false_eq_true, ↓reduceIte] at h
+        cases h
+        left
+        cases drop <;> simp
+  | cons p rest =>
+    cases hpb : cf.pb with
+    | nil =>
+      simp only [hpa, hpb] at h
+      cases hp : pstep c cf.s p with
+      | halt x => simp [hp] at h
+      | next s' ans drop =>
+        simp only [hp, ↓reduceIte] at h
+        cases h
+        left
+        cases drop <;> simp
+    | cons q r =>
+      simp only [hpa, hpb] at h
+      cases ch
+      · cases hp : pstep c cf.s q with
+        | halt x => simp [hp] at h
+        | next s' ans drop =>
+          simp only [hp, Bool.false_eq_true, ↓reduceIte] at h
+          cases h
+          left
+          cases drop <;> simp <;> omega
+      · cases hp : pstep c cf.s p with
+        | halt x => simp [hp] at h
+        | next s' ans drop =>
+          simp only [hp, ↓reduceIte] at h
+          cases h
+          left
+          cases drop <;> simp <;> omega
+
+/-- a run along at least as many choices as there are parts left serves both requests completely -/
+theorem runChoices_exhausts (c : Cfg) : ∀ (chs : List Bool) (cf cf' : Conf), runChoices c chs cf = .ok cf' →
+    cf.pa.length + cf.pb.length ≤ chs.length → cf'.pa = [] ∧ cf'.pb = [] := by
+  intro chs
+  induction chs with
+  | nil =>
+    intro cf cf' e h
+    simp only [runChoices] at e
+    cases e
+    simp only [List.length_nil, Nat.le_zero_eq, Nat.add_eq_zero_iff, List.length_eq_zero_iff] at h
+    exact h
+  | cons ch rest ih =>
+    intro cf cf' e h
+    simp only [runChoices] at e
+    cases hm : cf.move c ch with
+    | error r => rw [hm] at e; cases e
+    | ok cf1 =>
+      rw [hm] at e
+      rcases move_progress c cf cf1 ch hm with hlt | ⟨ha, hb, rfl⟩
+      · exact ih cf1 cf' e (by simp only [List.length_cons] at h; omega)
+      · exact ih cf1 cf' e (by simp [ha, hb])
+
+/-- what an overlap leaves behind, from a property every move keeps: the final configuration (both requests
+    served completely) has the property -/
 theorem parOutcomes_keeps (c : Cfg) (G : Conf → Prop) (s : St) (a b : Op)
     (hmove : ∀ cf ch cf', G cf → cf.move c ch = .ok cf' → G cf')
     (h0 : G (parStart s a b)) {s' : St} {ra rb : Res} (ho : POut.done s' ra rb ∈ parOutcomes c s a b) :
-    ∃ cf, G cf ∧ (s' = cf.s ∨ s' = { cf.s with out := swapNew s.out.length cf.s.out }) := by
-  obtain ⟨chs, hm⟩ := mem_parOutcomes ho
+    ∃ cf, G cf ∧ cf.pa = [] ∧ cf.pb = [] ∧ (s' = cf.s ∨ s' = { cf.s with out := swapNew s.out.length cf.s.out }) := by
+  obtain ⟨chs, hlen, hm⟩ := mem_parOutcomes_len ho
   simp only [parRun, lookFirst] at hm
   cases h1 : (parStart s a b).move c true with
   | error r => simp [h1, POut.ofRun] at hm
   | ok cf1 =>
     simp only [h1] at hm
     have g1 := hmove _ _ _ h0 h1
+    have hle : cf1.pa.length + cf1.pb.length ≤ chs.length := by
+      rcases move_progress c _ cf1 true h1 with h | ⟨_, _, rfl⟩
+      · simp only [parStart] at h; omega
+      · simp only [parStart]; omega
     cases h2 : runChoices c chs cf1 with
     | error r => rw [h2] at hm; simp [POut.ofRun] at hm
     | ok cf2 =>
       rw [h2] at hm
       have g2 := runChoices_keeps c G hmove chs cf1 cf2 g1 h2
+      have hend := runChoices_exhausts c chs cf1 cf2 h2 hle
       simp only [POut.ofRun, List.mem_cons, POut.done.injEq, List.mem_nil_iff, or_false] at hm
       rcases hm with ⟨e, _, _⟩ | ⟨e, _, _⟩
-      · exact ⟨cf2, g2, Or.inl e⟩
-      · exact ⟨cf2, g2, Or.inr e⟩
+      · exact ⟨cf2, g2, hend.1, hend.2, Or.inl e⟩
+      · exact ⟨cf2, g2, hend.1, hend.2, Or.inr e⟩
 
 /-- no behaviour of an overlap halts, from a property that every move keeps and from which no move halts -/
 theorem parOutcomes_safe (c : Cfg) (G : Conf → Prop) (s : St) (a b : Op)
@@ -123,6 +215,27 @@ theorem parOutcomes_safe (c : Cfg) (G : Conf → Prop) (s : St) (a b : Op)
   exact ⟨cf2, g2, hm⟩
 
 /-! ### one part of a request, and the basic invariant -/
+
+theorem claim_of_ne (c : Cfg) (s : St) {op : Op} (h : op ≠ .kill) : claim c s op = s := by
+  simp [claim, h]
+
+theorem claim_legacy (c : Cfg) (s : St) (op : Op) (hc : c.killClaimsEntry = false) : claim c s op = s := by
+  simp [claim, hc]
+
+theorem claim_kill (c : Cfg) (s : St) (hc : c.killClaimsEntry = true) : claim c s .kill = { s with active := false } := by
+  simp [claim, hc]
+
+theorem claim_kind (c : Cfg) (s : St) (op : Op) : (claim c s op).kind = s.kind := by
+  simp only [claim]; split <;> rfl
+
+theorem claim_cmd (c : Cfg) (s : St) (op : Op) : (claim c s op).cmd = s.cmd := by
+  simp only [claim]; split <;> rfl
+
+theorem withActive_of_active (s : St) (h : s.active = true) : { s with active := true } = s := by
+  cases s; simp_all
+
+theorem withInactive_of_inactive (s : St) (h : s.active = false) : { s with active := false } = s := by
+  cases s; simp_all
 
 theorem serve_eq_step (c : Cfg) (s : St) (op : Op) (h : s.active = true) : serve c s op = step c s op := by
   have e : { s with active := true } = s := by cases s; simp_all
@@ -238,7 +351,9 @@ theorem pstep_calm (c : Cfg) (s s' : St) (p : Part) (ans : Option Res) (drop : B
     (h : Inv s) (hp : pstep c s p = .next s' ans drop) : Inv s' ∧ (s.active = true → s'.active = true) := by
   cases p with
   | look op =>
-    simp only [pstep] at hp
+    have hne : op ≠ .kill := by
+      simp only [Part.calm, Bool.and_eq_true, bne_iff_ne, ne_eq] at hc; exact hc.2
+    simp only [pstep, claim_of_ne c s hne] at hp
     split at hp
     · cases hp; exact ⟨h, id⟩
     · split at hp
@@ -271,6 +386,8 @@ theorem pstep_calm (c : Cfg) (s s' : St) (p : Part) (ans : Option Res) (drop : B
     · cases hp
     · cases hp; exact ⟨h, id⟩
 
+/-! #### the code before handleKillEvent claimed the entry: at most one terminal status unless two KILLs overlap -/
+
 /-- the configurations of an overlap that is not two KILLs -/
 structure OneKill (cf : Conf) : Prop where
   inv : Inv cf.s
@@ -278,7 +395,8 @@ structure OneKill (cf : Conf) : Prop where
   actA : cf.pa = [.whole .kill] → cf.s.active = true
   actB : cf.pb = [.whole .kill] → cf.s.active = true
 
-theorem pstep_killThread (c : Cfg) (s s' : St) (p : Part) (rest : List Part) (ans : Option Res) (drop : Bool)
+theorem pstep_killThread (c : Cfg) (hcl : c.killClaimsEntry = false) (s s' : St) (p : Part) (rest : List Part)
+    (ans : Option Res) (drop : Bool)
     (hl : killThread (p :: rest)) (hact : p :: rest = [.whole .kill] → s.active = true) (h : Inv s)
     (hp : pstep c s p = .next s' ans drop) :
     Inv s' ∧ killThread (if drop then [] else rest) ∧ ((if drop then [] else rest) = [.whole .kill] → s'.active = true) := by
@@ -286,7 +404,7 @@ theorem pstep_killThread (c : Cfg) (s s' : St) (p : Part) (rest : List Part) (an
   · -- the look-up of the KILL
     simp only [List.cons.injEq] at e
     obtain ⟨rfl, rfl⟩ := e
-    simp only [pstep] at hp
+    simp only [pstep, claim_legacy c s .kill hcl] at hp
     split at hp
     · cases hp; exact ⟨h, Or.inr (Or.inr rfl), by simp⟩
     · split at hp
@@ -302,8 +420,8 @@ theorem pstep_killThread (c : Cfg) (s s' : St) (p : Part) (rest : List Part) (an
     · cases hp; exact ⟨step_inv c s .kill h, by simp [killThread], by simp⟩
   · cases e
 
-theorem oneKill_move (c : Cfg) (cf cf' : Conf) (ch : Bool) (g : OneKill cf) (hm : cf.move c ch = .ok cf') :
-    OneKill cf' := by
+theorem oneKill_move (c : Cfg) (hcl : c.killClaimsEntry = false) (cf cf' : Conf) (ch : Bool) (g : OneKill cf)
+    (hm : cf.move c ch = .ok cf') : OneKill cf' := by
   obtain ⟨inv, shape, actA, actB⟩ := g
   rcases move_cases c cf cf' ch hm with rfl | ⟨p, rest, s', ans, drop, hpa, hp, rfl⟩ | ⟨p, rest, s', ans, drop, hpb, hp, rfl⟩
   · exact ⟨inv, shape, actA, actB⟩
@@ -317,12 +435,12 @@ theorem oneKill_move (c : Cfg) (cf cf' : Conf) (ch : Bool) (g : OneKill cf) (hm 
         · exact calm_tail ca
       exact ⟨i', Or.inl ⟨ca', hb⟩, fun e => absurd e (calm_ne_kill ca'), fun e => keep (actB e)⟩
     · rw [hpa] at ka actA
-      have ⟨i', ka', act'⟩ := pstep_killThread c cf.s s' p rest ans drop ka actA inv hp
+      have ⟨i', ka', act'⟩ := pstep_killThread c hcl cf.s s' p rest ans drop ka actA inv hp
       exact ⟨i', Or.inr ⟨ka', cb⟩, act', fun e => absurd e (calm_ne_kill cb)⟩
   · -- request B moved
     rcases shape with ⟨ca, kb | cb⟩ | ⟨ka, cb⟩
     · rw [hpb] at kb actB
-      have ⟨i', kb', act'⟩ := pstep_killThread c cf.s s' p rest ans drop kb actB inv hp
+      have ⟨i', kb', act'⟩ := pstep_killThread c hcl cf.s s' p rest ans drop kb actB inv hp
       exact ⟨i', Or.inl ⟨ca, Or.inl kb'⟩, fun e => absurd e (calm_ne_kill ca), act'⟩
     · rw [hpb] at cb
       have ⟨i', keep⟩ := pstep_calm c cf.s s' p ans drop (cb p (by simp)) inv hp
@@ -394,9 +512,12 @@ theorem inv_swap (s : St) (n : Nat) (h : Inv s) : Inv { s with out := swapNew n 
   obtain ⟨h1, h2, h3, h3', h4, h5, h6⟩ := h
   refine ⟨?_, ?_, ?_, ?_, ?_, ?_, ?_⟩ <;> simp_all [terminals_swapNew, mem_swapNew]
 
-/-! ### every run of a schedule without two overlapping KILLs keeps the basic invariant -/
+/-! ### every run of a schedule keeps the basic invariant, given that every overlap of the schedule does -/
 
-theorem runFromI_inv (c : Cfg) (items : List Item) (hn : items.all notTwoKills = true) :
+theorem runFromI_inv_of (c : Cfg) (P : Item → Bool)
+    (hpar : ∀ (s s' : St) (a b : Op) (ra rb : Res), Inv s → P (.par a b) = true →
+      POut.done s' ra rb ∈ parOutcomes c s a b → Inv s')
+    (items : List Item) (hn : items.all P = true) :
     ∀ (s : St), Inv s → ∀ o ∈ runFromI c s items, Inv o.st := by
   induction items with
   | nil =>
@@ -437,12 +558,12 @@ theorem runFromI_inv (c : Cfg) (items : List Item) (hn : items.all notTwoKills =
         | done s' ra rb =>
           simp only [List.mem_map] at ho
           obtain ⟨o', ho', rfl⟩ := ho
-          obtain ⟨cf, g, e | e⟩ := parOutcomes_keeps c OneKill s a b (fun cf ch cf' => oneKill_move c cf cf' ch)
-            (oneKill_start s a b h hn.1) hpo
-          · exact ih hn.2 s' (e ▸ g.inv) o' ho'
-          · exact ih hn.2 s' (e ▸ inv_swap cf.s _ g.inv) o' ho'
+          exact ih hn.2 s' (hpar s s' a b ra rb h hn.1 hpo) o' ho'
 
-theorem runI_inv (c : Cfg) (k : Kind) (b : Beh) (items : List Item) (hn : items.all notTwoKills = true) :
+theorem runI_inv_of (c : Cfg) (P : Item → Bool)
+    (hpar : ∀ (s s' : St) (a b : Op) (ra rb : Res), Inv s → P (.par a b) = true →
+      POut.done s' ra rb ∈ parOutcomes c s a b → Inv s')
+    (k : Kind) (b : Beh) (items : List Item) (hn : items.all P = true) :
     ∀ o ∈ runI c k b items, Inv o.st := by
   intro o ho
   simp only [runI] at ho
@@ -452,7 +573,246 @@ theorem runI_inv (c : Cfg) (k : Kind) (b : Beh) (items : List Item) (hn : items.
     exact init_inv c k b
   · simp only [List.mem_map] at ho
     obtain ⟨o', ho', rfl⟩ := ho
-    exact runFromI_inv c items hn _ (init_inv c k b) o' ho'
+    exact runFromI_inv_of c P hpar items hn _ (init_inv c k b) o' ho'
+
+/-- the code before the repair: an overlap that is not two KILLs keeps the basic invariant -/
+theorem par_inv_legacy (c : Cfg) (hcl : c.killClaimsEntry = false) (s s' : St) (a b : Op) (ra rb : Res) (h : Inv s)
+    (hn : notTwoKills (.par a b) = true) (hpo : POut.done s' ra rb ∈ parOutcomes c s a b) : Inv s' := by
+  obtain ⟨cf, g, _, _, e | e⟩ := parOutcomes_keeps c OneKill s a b (fun cf ch cf' => oneKill_move c hcl cf cf' ch)
+    (oneKill_start s a b h hn) hpo
+  · exact e ▸ g.inv
+  · exact e ▸ inv_swap cf.s _ g.inv
+
+/-! #### the code as it is: handleKillEvent takes the entry out in the section that looks it up — at most one
+    terminal status whatever overlaps, two KILLs included
+
+A KILL that has looked the task up and whose Kill() has not run yet (thread `[whole kill]`) HOLDS the task: the
+task is inactive for every look-up that follows, and the basic invariant holds of the state as the holder will
+see it (`active` forced, as `serve` does). At most one request holds the task at any time. -/
+
+theorem step_kill_deactivates (c : Cfg) (s : St) (h : (step c s .kill).2.halts = false) :
+    (step c s .kill).1.active = false := by
+  revert h
+  simp only [step, reapCtl, escalate]
+  repeat' split
+  all_goals simp_all [Res.halts]
+
+theorem step_inactive_nonkill (c : Cfg) (s : St) (op : Op) (hr : op.isRequest = true) (hk : op ≠ .kill)
+    (ha : s.active = false) : (step c s op).1 = s := by
+  cases op <;> simp only [Op.isRequest] at hr <;> simp_all [step]
+
+theorem step_kill_inactive (c : Cfg) (s : St) (ha : s.active = false) :
+    (step c s .kill).1 = s ∨ (step c s .kill).1 = { s with loop := false } := by
+  simp only [step, ha, Bool.not_false, ↓reduceIte]
+  split <;> simp
+
+theorem inv_held_loop (s : St) (b : Bool) (h : Inv { s with active := true }) :
+    Inv { { s with loop := b } with active := true } := by
+  obtain ⟨h1, h2, h3, h3', h4, h5, h6⟩ := h
+  refine ⟨?_, ?_, ?_, ?_, ?_, ?_, ?_⟩ <;> simp_all
+
+theorem serve_fst (c : Cfg) (s : St) (op : Op) :
+    (serve c s op).1 = { (step c { s with active := true } op).1 with
+      active := (step c { s with active := true } op).1.active && s.active } := rfl
+
+theorem serve_snd (c : Cfg) (s : St) (op : Op) : (serve c s op).2 = (step c { s with active := true } op).2 := rfl
+
+/-- Kill() of a task its handler has taken out of activeTasks: what `step` does to the task as it was found -/
+theorem serve_held_kill (c : Cfg) (s : St) (ha : s.active = false) (hh : (serve c s .kill).2.halts = false) :
+    (serve c s .kill).1 = (step c { s with active := true } .kill).1 := by
+  rw [serve_snd] at hh
+  have hd := step_kill_deactivates c { s with active := true } hh
+  rw [serve_fst, hd, ha]
+  exact withInactive_of_inactive _ hd
+
+/-- a part of a request that is not a KILL, while a KILL holds the task -/
+theorem pstep_calm_held (c : Cfg) (s s' : St) (p : Part) (ans : Option Res) (drop : Bool) (hc : p.calm = true)
+    (ha : s.active = false) (hi : Inv { s with active := true }) (hp : pstep c s p = .next s' ans drop) :
+    s'.active = false ∧ Inv { s' with active := true } := by
+  cases p with
+  | look op =>
+    simp only [Part.calm, Bool.and_eq_true, bne_iff_ne, ne_eq] at hc
+    simp only [pstep, ha, Bool.false_eq_true, ↓reduceIte] at hp
+    split at hp
+    · cases hp; exact ⟨ha, hi⟩
+    · cases hp
+      rw [step_inactive_nonkill c s op hc.1 hc.2 ha]
+      exact ⟨ha, hi⟩
+  | whole op =>
+    simp only [Part.calm, Bool.and_eq_true, bne_iff_ne, ne_eq] at hc
+    simp only [pstep] at hp
+    split at hp
+    · cases hp
+    · cases hp
+      have hact : (step c { s with active := true } op).1.active = true := by
+        have := serve_active_nonkill c { s with active := true } op hc.1 hc.2 rfl
+        rwa [serve_eq_step c _ op rfl] at this
+      refine ⟨by simp [serve_fst, ha], ?_⟩
+      have e : { (serve c s op).1 with active := true } = (step c { s with active := true } op).1 := by
+        rw [serve_fst]
+        exact withActive_of_active _ hact
+      rw [e]
+      exact step_inv c _ op hi
+  | prep hk =>
+    simp only [pstep] at hp
+    split at hp
+    · rename_i hb
+      cases hp
+      exact ⟨ha, prepS_inv { s with active := true } hi hb⟩
+    · cases hp; exact ⟨ha, hi⟩
+  | exec hk =>
+    simp only [pstep] at hp
+    split at hp
+    · cases hp
+    · split at hp
+      · cases hp; exact ⟨ha, hi⟩
+      · cases hp; exact ⟨ha, execS_inv { s with active := true } hi⟩
+  | reap hk =>
+    simp only [pstep] at hp
+    split at hp
+    · cases hp
+    · cases hp; exact ⟨ha, hi⟩
+
+theorem killThread_nil : killThread [] := Or.inr (Or.inr rfl)
+
+/-- One move of one request (`p :: rest` is what is left of it, `Y` what is left of the other one), seen from the
+    invariant of the configurations in which a KILL takes the entry out when it finds the task. -/
+theorem held_thread_move (c : Cfg) (hcl : c.killClaimsEntry = true) (s s' : St) (p : Part) (rest Y : List Part)
+    (ans : Option Res) (drop : Bool)
+    (shX : killThread (p :: rest) ∨ calmThread (p :: rest))
+    (free : (p :: rest) ≠ [.whole .kill] → Y ≠ [.whole .kill] → Inv s)
+    (heldX : (p :: rest) = [.whole .kill] → s.active = false ∧ Inv { s with active := true } ∧ Y ≠ [.whole .kill])
+    (heldY : Y = [.whole .kill] → s.active = false ∧ Inv { s with active := true })
+    (hp : pstep c s p = .next s' ans drop) :
+    (killThread (if drop then [] else rest) ∨ calmThread (if drop then [] else rest)) ∧
+    ((if drop then [] else rest) ≠ [.whole .kill] → Y ≠ [.whole .kill] → Inv s') ∧
+    ((if drop then [] else rest) = [.whole .kill] → s'.active = false ∧ Inv { s' with active := true } ∧ Y ≠ [.whole .kill]) ∧
+    (Y = [.whole .kill] → s'.active = false ∧ Inv { s' with active := true } ∧ (if drop then [] else rest) ≠ [.whole .kill]) := by
+  rcases shX with kt | ct
+  · rcases kt with e | e | e
+    · -- the look-up of the KILL
+      simp only [List.cons.injEq] at e
+      obtain ⟨rfl, rfl⟩ := e
+      have hne : [Part.look .kill, .whole .kill] ≠ [.whole .kill] := by simp
+      simp only [pstep] at hp
+      split at hp
+      · cases hp
+        refine ⟨Or.inl killThread_nil, fun _ hY => free hne hY, by simp, fun hY => ?_⟩
+        obtain ⟨a1, a2⟩ := heldY hY
+        exact ⟨a1, a2, by simp⟩
+      · split at hp
+        · -- found: the entry is taken out at once
+          rename_i hact
+          cases hp
+          have hY : Y ≠ [.whole .kill] := by
+            intro hY; have := (heldY hY).1; simp_all
+          rw [claim_kill c s hcl]
+          refine ⟨Or.inl (Or.inr (Or.inl rfl)), fun h _ => absurd rfl h, fun _ => ⟨rfl, ?_, hY⟩, fun h => absurd h hY⟩
+          have : ({ ({ s with active := false } : St) with active := true } : St) = s := withActive_of_active s hact
+          rw [this]
+          exact free hne hY
+        · -- not found: ignored (before that repair: the loop ends)
+          rename_i hact
+          have hact' : s.active = false := by simpa using hact
+          cases hp
+          refine ⟨Or.inl killThread_nil, fun _ hY => step_inv c s .kill (free hne hY), by simp, fun hY => ?_⟩
+          obtain ⟨a1, a2⟩ := heldY hY
+          rcases step_kill_inactive c s hact' with e | e <;> rw [e]
+          · exact ⟨a1, a2, by simp⟩
+          · exact ⟨a1, inv_held_loop s false a2, by simp⟩
+    · -- Kill() itself, by the request that holds the task
+      simp only [List.cons.injEq] at e
+      obtain ⟨rfl, rfl⟩ := e
+      obtain ⟨a1, a2, hY⟩ := heldX rfl
+      simp only [pstep] at hp
+      split at hp
+      · cases hp
+      · rename_i hh
+        cases hp
+        have hh' : (serve c s .kill).2.halts = false := by simpa using hh
+        refine ⟨Or.inl killThread_nil, fun _ _ => ?_, by simp, fun h => absurd h hY⟩
+        rw [serve_held_kill c s a1 hh']
+        exact step_inv c _ .kill a2
+    · cases e
+  · -- a request that is not a KILL
+    have hcalm : p.calm = true := ct p (by simp)
+    have ct' : calmThread (if drop then [] else rest) := by
+      split
+      · exact calm_nil
+      · exact calm_tail ct
+    by_cases hY : Y = [.whole .kill]
+    · obtain ⟨a1, a2⟩ := heldY hY
+      obtain ⟨b1, b2⟩ := pstep_calm_held c s s' p ans drop hcalm a1 a2 hp
+      exact ⟨Or.inr ct', fun _ h => absurd hY h, fun h => absurd h (calm_ne_kill ct'), fun _ => ⟨b1, b2, calm_ne_kill ct'⟩⟩
+    · have hI := free (calm_ne_kill ct) hY
+      obtain ⟨i', _⟩ := pstep_calm c s s' p ans drop hcalm hI hp
+      exact ⟨Or.inr ct', fun _ _ => i', fun h => absurd h (calm_ne_kill ct'), fun h => absurd h hY⟩
+
+/-- the configurations of an overlap in the code in which a KILL takes the entry out when it finds the task -/
+structure Held (cf : Conf) : Prop where
+  shA : killThread cf.pa ∨ calmThread cf.pa
+  shB : killThread cf.pb ∨ calmThread cf.pb
+  free : cf.pa ≠ [.whole .kill] → cf.pb ≠ [.whole .kill] → Inv cf.s
+  heldA : cf.pa = [.whole .kill] → cf.s.active = false ∧ Inv { cf.s with active := true } ∧ cf.pb ≠ [.whole .kill]
+  heldB : cf.pb = [.whole .kill] → cf.s.active = false ∧ Inv { cf.s with active := true } ∧ cf.pa ≠ [.whole .kill]
+
+theorem held_move (c : Cfg) (hcl : c.killClaimsEntry = true) (cf cf' : Conf) (ch : Bool) (g : Held cf)
+    (hm : cf.move c ch = .ok cf') : Held cf' := by
+  obtain ⟨shA, shB, free, heldA, heldB⟩ := g
+  rcases move_cases c cf cf' ch hm with rfl | ⟨p, rest, s', ans, drop, hpa, hp, rfl⟩ | ⟨p, rest, s', ans, drop, hpb, hp, rfl⟩
+  · exact ⟨shA, shB, free, heldA, heldB⟩
+  · rw [hpa] at shA free heldA heldB
+    obtain ⟨r1, r2, r3, r4⟩ := held_thread_move c hcl cf.s s' p rest cf.pb ans drop shA free heldA
+      (fun h => ⟨(heldB h).1, (heldB h).2.1⟩) hp
+    exact ⟨r1, shB, r2, r3, r4⟩
+  · rw [hpb] at shB free heldA heldB
+    obtain ⟨r1, r2, r3, r4⟩ := held_thread_move c hcl cf.s s' p rest cf.pa ans drop shB (fun h1 h2 => free h2 h1) heldB
+      (fun h => ⟨(heldA h).1, (heldA h).2.1⟩) hp
+    exact ⟨shA, r1, fun h1 h2 => r2 h2 h1, r4, r3⟩
+
+/-- two requests -/
+def reqItem : Item → Bool
+  | .one _ => true
+  | .par a b => a.isRequest && b.isRequest
+
+theorem reqItem_of_notTwoKills (it : Item) (h : notTwoKills it = true) : reqItem it = true := by
+  cases it <;> simp_all [notTwoKills, reqItem]
+
+theorem reqItem_of_ok (k : Kind) (it : Item) (h : it.ok k = true) : reqItem it = true := by
+  cases it <;> simp_all [Item.ok, parOK, reqItem]
+
+theorem held_start (s : St) (a b : Op) (h : Inv s) (hn : reqItem (.par a b) = true) : Held (parStart s a b) := by
+  simp only [reqItem, Bool.and_eq_true] at hn
+  have sh : ∀ op, op.isRequest = true → killThread (partsOf s.kind op) ∨ calmThread (partsOf s.kind op) := by
+    intro op hr
+    by_cases e : op = .kill
+    · subst e; left; simp [partsOf, spawns, killThread]
+    · right; exact calm_partsOf _ op hr e
+  have nk : ∀ op, partsOf s.kind op ≠ [.whole .kill] := by
+    intro op; simp only [partsOf]; split <;> simp
+  exact ⟨sh a hn.1, sh b hn.2, fun _ _ => h, fun e => absurd e (nk a), fun e => absurd e (nk b)⟩
+
+/-- the code as it is: EVERY overlap of two requests keeps the basic invariant -/
+theorem par_inv_claimed (c : Cfg) (hcl : c.killClaimsEntry = true) (s s' : St) (a b : Op) (ra rb : Res) (h : Inv s)
+    (hn : reqItem (.par a b) = true) (hpo : POut.done s' ra rb ∈ parOutcomes c s a b) : Inv s' := by
+  obtain ⟨cf, g, ea, eb, e | e⟩ := parOutcomes_keeps c Held s a b (fun cf ch cf' => held_move c hcl cf cf' ch)
+    (held_start s a b h hn) hpo
+  · exact e ▸ g.free (by simp [ea]) (by simp [eb])
+  · exact e ▸ inv_swap cf.s _ (g.free (by simp [ea]) (by simp [eb]))
+
+/-- every run of a schedule of items keeps the basic invariant when a KILL takes the entry out at its look-up -/
+theorem runI_inv_claimed (c : Cfg) (hcl : c.killClaimsEntry = true) (k : Kind) (b : Beh) (items : List Item)
+    (hn : items.all reqItem = true) : ∀ o ∈ runI c k b items, Inv o.st :=
+  runI_inv_of c reqItem (par_inv_claimed c hcl) k b items hn
+
+/-- every run of a schedule without two overlapping KILLs keeps the basic invariant — every configuration -/
+theorem runI_inv (c : Cfg) (k : Kind) (b : Beh) (items : List Item) (hn : items.all notTwoKills = true) :
+    ∀ o ∈ runI c k b items, Inv o.st := by
+  cases hcl : c.killClaimsEntry
+  · exact runI_inv_of c notTwoKills (par_inv_legacy c hcl) k b items hn
+  · apply runI_inv_claimed c hcl k b items
+    simp only [List.all_eq_true] at hn ⊢
+    exact fun it hit => reqItem_of_notTwoKills it (hn it hit)
 
 /-! ### no overlap gets the executor stuck over a basic / hook / data-less task unless a KILL meets a starting child -/
 
@@ -473,15 +833,27 @@ def needsCmd : List Part → Bool
   | .exec _ :: _ | .reap _ :: _ => true
   | _ => false
 
-theorem step_code_not_stuck (s : St) (op : Op) (hk : s.kind ≠ .ctl) : (step codeCfg s op).2.stuck = false := by
+/-- the configurations the overlap no-stuck theorems are about: ensureBasicTaskKilled tests for nil, a KILL for
+    a task that is not active is ignored, a launch without data returns (three of the first five repairs) -/
+structure Cfg.Repaired (c : Cfg) : Prop where
+  stop : c.stopNilSafe = true
+  kill : c.killInactiveIgnored = true
+  launch : c.launchNilSafe = true
+
+theorem codeCfg_repaired : codeCfg.Repaired := ⟨rfl, rfl, rfl⟩
+theorem overlapLegacyCfg_repaired : overlapLegacyCfg.Repaired := ⟨rfl, rfl, rfl⟩
+
+theorem step_rep_not_stuck (c : Cfg) (hc : c.Repaired) (s : St) (op : Op) (hk : s.kind ≠ .ctl) :
+    (step c s op).2.stuck = false := by
   rw [step_stuck_iff]
-  cases hk' : s.kind <;> simp_all [unsafeReq, codeCfg, killNoRpc]
+  cases hk' : s.kind <;> simp_all [unsafeReq, killNoRpc, hc.stop, hc.kill]
 
 theorem stuck_of_halts {r : Res} (h : r.stuck = false) : r.halts = false := by
   cases r <;> simp_all [Res.stuck, Res.halts]
 
-theorem serve_code_not_stuck (s : St) (op : Op) (hk : s.kind ≠ .ctl) : (serve codeCfg s op).2.stuck = false := by
-  have := step_code_not_stuck { s with active := true } op hk
+theorem serve_rep_not_stuck (c : Cfg) (hc : c.Repaired) (s : St) (op : Op) (hk : s.kind ≠ .ctl) :
+    (serve c s op).2.stuck = false := by
+  have := step_rep_not_stuck c hc { s with active := true } op hk
   simpa [serve] using this
 
 theorem serve_kind (c : Cfg) (s : St) (op : Op) : (serve c s op).1.kind = s.kind := by
@@ -500,43 +872,52 @@ theorem step_inactive_cmd (c : Cfg) (s : St) (op : Op) (hr : op.isRequest = true
   all_goals (repeat' split)
   all_goals simp_all
 
-/-- One move of the request `op` from what is left of it, in the code as it is, for a task that is not
-    controllable: it does not halt, what is left is again a rest of `op`, its answer is not a stuck result, the
-    next part still finds t.taskCmd, and unless `op` is a KILL a command that was there is still there. -/
-theorem thread_move_safe (k : Kind) (hk : k ≠ .ctl) (op : Op) (hr : op.isRequest = true) (s : St) (hs : s.kind = k)
-    (p : Part) (rest : List Part) (hl : (p :: rest) ∈ threadsOf k op) (hc : needsCmd (p :: rest) = true → s.cmd = true) :
-    ∃ s' ans drop, pstep codeCfg s p = .next s' ans drop ∧ s'.kind = k ∧
+/-- the next part finds the command it needs: the field is set — or the part does not read the field at all -/
+def cmdOk (c : Cfg) (s : St) : Prop := s.cmd = true ∨ c.startOwnsCmd = true
+
+/-- One move of the request `op` from what is left of it, for a task that is not controllable: it does not halt,
+    what is left is again a rest of `op`, its answer is not a stuck result, the next part still finds the command
+    it needs, and unless `op` is a KILL a command that was there is still there. -/
+theorem thread_move_safe (c : Cfg) (hrep : c.Repaired) (k : Kind) (hk : k ≠ .ctl) (op : Op) (hr : op.isRequest = true)
+    (s : St) (hs : s.kind = k)
+    (p : Part) (rest : List Part) (hl : (p :: rest) ∈ threadsOf k op) (hc : needsCmd (p :: rest) = true → cmdOk c s) :
+    ∃ s' ans drop, pstep c s p = .next s' ans drop ∧ s'.kind = k ∧
       (if drop then [] else rest) ∈ threadsOf k op ∧
-      (needsCmd (if drop then [] else rest) = true → s'.cmd = true) ∧
+      (needsCmd (if drop then [] else rest) = true → cmdOk c s') ∧
       (∀ r, ans = some r → r.stuck = false) ∧
-      (op ≠ .kill → s.cmd = true → s'.cmd = true) := by
+      (op ≠ .kill → cmdOk c s → cmdOk c s') := by
   have hkc : s.kind ≠ .ctl := hs ▸ hk
   have hnil : ([] : List Part) ∈ threadsOf k op := nil_mem_tailsOf _
   have lookCase : ∀ (rest : List Part), (rest ∈ threadsOf k op) → needsCmd rest = false →
-      ∃ s' ans drop, pstep codeCfg s (.look op) = .next s' ans drop ∧ s'.kind = k ∧
+      ∃ s' ans drop, pstep c s (.look op) = .next s' ans drop ∧ s'.kind = k ∧
         (if drop then [] else rest) ∈ threadsOf k op ∧
-        (needsCmd (if drop then [] else rest) = true → s'.cmd = true) ∧
-        (∀ r, ans = some r → r.stuck = false) ∧ (op ≠ .kill → s.cmd = true → s'.cmd = true) := by
+        (needsCmd (if drop then [] else rest) = true → cmdOk c s') ∧
+        (∀ r, ans = some r → r.stuck = false) ∧ (op ≠ .kill → cmdOk c s → cmdOk c s') := by
     intro rest hrest hnc
     simp only [pstep]
     split
     · exact ⟨s, some .dead, true, rfl, hs, by simpa using hnil, by simp [needsCmd], by simp [Res.stuck], fun _ h => h⟩
     · split
-      · exact ⟨s, none, false, rfl, hs, by simpa using hrest, by simp [hnc], by simp, fun _ h => h⟩
+      · exact ⟨claim c s op, none, false, rfl, by rw [claim_kind]; exact hs, by simpa using hrest, by simp [hnc], by simp,
+          fun _ h => by simpa [cmdOk, claim_cmd] using h⟩
       · rename_i ha
         have ha' : s.active = false := by simpa using ha
-        have := step_inactive_cmd codeCfg s op hr ha'
-        refine ⟨_, _, true, rfl, by rw [this.2]; exact hs, by simpa using hnil, by simp [needsCmd], ?_, fun _ h => by rw [this.1]; exact h⟩
-        intro r e; cases e; exact step_code_not_stuck s op hkc
-  have wholeCase : ∃ s' ans drop, pstep codeCfg s (.whole op) = .next s' ans drop ∧ s'.kind = k ∧
+        have := step_inactive_cmd c s op hr ha'
+        refine ⟨_, _, true, rfl, by rw [this.2]; exact hs, by simpa using hnil, by simp [needsCmd], ?_,
+          fun _ h => by simpa [cmdOk, this.1] using h⟩
+        intro r e; cases e; exact step_rep_not_stuck c hrep s op hkc
+  have wholeCase : ∃ s' ans drop, pstep c s (.whole op) = .next s' ans drop ∧ s'.kind = k ∧
         (if drop then [] else ([] : List Part)) ∈ threadsOf k op ∧
-        (needsCmd (if drop then [] else ([] : List Part)) = true → s'.cmd = true) ∧
-        (∀ r, ans = some r → r.stuck = false) ∧ (op ≠ .kill → s.cmd = true → s'.cmd = true) := by
-    have hns := serve_code_not_stuck s op hkc
+        (needsCmd (if drop then [] else ([] : List Part)) = true → cmdOk c s') ∧
+        (∀ r, ans = some r → r.stuck = false) ∧ (op ≠ .kill → cmdOk c s → cmdOk c s') := by
+    have hns := serve_rep_not_stuck c hrep s op hkc
     simp only [pstep, stuck_of_halts hns, Bool.false_eq_true, ↓reduceIte]
     refine ⟨_, _, false, rfl, by rw [serve_kind]; exact hs, by simpa using hnil, by simp [needsCmd], ?_, ?_⟩
     · intro r e; cases e; exact hns
-    · intro hk' hc'; exact serve_cmd_nonkill codeCfg s op hr hk' hc'
+    · intro hk' hc'
+      rcases hc' with hc' | hc'
+      · exact Or.inl (serve_cmd_nonkill c s op hr hk' hc')
+      · exact Or.inr hc'
   simp only [threadsOf, partsOf] at hl
   split at hl
   · -- a request that starts a child: look, prep, exec, reap
@@ -550,18 +931,23 @@ theorem thread_move_safe (k : Kind) (hk : k ≠ .ctl) (op : Op) (hr : op.isReque
         (by simp [threadsOf, partsOf, hsp, tailsOf]) (by simp [needsCmd])
       simpa [threadsOf, partsOf, hsp] using this
     · refine ⟨prepS s, none, false, by simp [pstep, hbl], by simp [prepS, hs], by simp [threadsOf, partsOf, hsp, tailsOf],
-        by simp [prepS], by simp, fun _ _ => by simp [prepS]⟩
+        fun _ => Or.inl (by simp [prepS]), by simp, fun _ _ => Or.inl (by simp [prepS])⟩
     · have hcmd := hc (by simp [needsCmd])
-      simp only [pstep, hcmd, Bool.not_true, Bool.false_eq_true, ↓reduceIte]
+      have hgo : (!s.cmd && !c.startOwnsCmd) = false := by
+        rcases hcmd with h | h <;> simp [h]
+      simp only [pstep, hgo, Bool.false_eq_true, ↓reduceIte]
       split
-      · exact ⟨s, _, true, rfl, hs, by simpa using hnil, by simp [needsCmd], by intro r e; cases e; simp [spawnAnswer]; split <;> simp [Res.stuck],
-          fun _ _ => hcmd⟩
-      · exact ⟨execS s, none, false, rfl, by simp [execS, hs], by simp [threadsOf, partsOf, hsp, tailsOf],
-          by simp [execS, hcmd], by simp, fun _ _ => by simp [execS, hcmd]⟩
+      · exact ⟨s, _, true, rfl, hs, by simpa using hnil, by simp [needsCmd],
+          by intro r e; cases e; simp [spawnAnswer]; split <;> simp [Res.stuck], fun _ _ => hcmd⟩
+      · refine ⟨execS s, none, false, rfl, by simp [execS, hs], by simp [threadsOf, partsOf, hsp, tailsOf],
+          fun _ => ?_, by simp, fun _ _ => ?_⟩ <;>
+        (rcases hcmd with h | h; exact Or.inl (by simp [execS, h]); exact Or.inr h)
     · have hcmd := hc (by simp [needsCmd])
-      simp only [pstep, hcmd, Bool.not_true, Bool.false_eq_true, ↓reduceIte]
-      exact ⟨s, _, false, rfl, hs, by simpa using hnil, by simp [needsCmd], by intro r e; cases e; simp [spawnAnswer]; split <;> simp [Res.stuck],
-        fun _ _ => hcmd⟩
+      have hgo : (!s.cmd && !c.startOwnsCmd) = false := by
+        rcases hcmd with h | h <;> simp [h]
+      simp only [pstep, hgo, Bool.false_eq_true, ↓reduceIte]
+      exact ⟨s, _, false, rfl, hs, by simpa using hnil, by simp [needsCmd],
+        by intro r e; cases e; simp [spawnAnswer]; split <;> simp [Res.stuck], fun _ _ => hcmd⟩
     · cases h
   · rename_i hsp
     simp only [tailsOf, List.mem_cons, List.cons.injEq, List.mem_nil_iff, or_false] at hl
@@ -571,10 +957,34 @@ theorem thread_move_safe (k : Kind) (hk : k ≠ .ctl) (op : Op) (hr : op.isReque
     · simpa [threadsOf, partsOf, hsp] using wholeCase
     · cases h
 
-/-- the pairs the no-stuck theorem is about: two requests, not a KILL together with a request that starts a child -/
+/-- the pairs the no-stuck theorem of the code before startBasicTask owned its command is about: two requests, not
+    a KILL together with a request that starts a child -/
 def noKillSpawn (k : Kind) : Item → Bool
   | .one _ => true
   | .par a b => a.isRequest && b.isRequest && !((a = .kill && spawns k b) || (spawns k a && b = .kill))
+
+/-- the pairs the no-stuck theorem is about in configuration `c`: two requests — any two once startBasicTask works
+    on its own pointer, before that not a KILL together with a request that starts a child -/
+def safeItem (c : Cfg) (k : Kind) : Item → Bool
+  | .one _ => true
+  | .par a b => a.isRequest && b.isRequest &&
+      (c.startOwnsCmd || !((a = .kill && spawns k b) || (spawns k a && b = .kill)))
+
+theorem safeItem_of_noKillSpawn (c : Cfg) (k : Kind) (it : Item) (h : noKillSpawn k it = true) :
+    safeItem c k it = true := by
+  cases it with
+  | one _ => rfl
+  | par a b =>
+    simp only [noKillSpawn, Bool.and_eq_true] at h
+    simp only [safeItem, h.1.1, h.1.2, h.2, Bool.or_true, Bool.and_self]
+
+theorem safeItem_of_owns (c : Cfg) (hc : c.startOwnsCmd = true) (k : Kind) (it : Item) (h : reqItem it = true) :
+    safeItem c k it = true := by
+  cases it with
+  | one _ => rfl
+  | par a b =>
+    simp only [reqItem, Bool.and_eq_true] at h
+    simp [safeItem, h.1, h.2, hc]
 
 theorem needsCmd_plain (k : Kind) (op : Op) (h : spawns k op = false) (l : List Part) (hl : l ∈ threadsOf k op) :
     needsCmd l = false := by
@@ -583,21 +993,22 @@ theorem needsCmd_plain (k : Kind) (op : Op) (h : spawns k op = false) (l : List 
 
 theorem spawns_kill (k : Kind) : spawns k .kill = false := by cases k <;> simp [spawns]
 
-/-- the configurations of an overlap (in the code as it is, task not controllable) in which no KILL meets a starting child -/
-structure Safe (k : Kind) (a b : Op) (cf : Conf) : Prop where
+/-- the configurations of an overlap (task not controllable) in which every part finds the command it needs -/
+structure Safe (c : Cfg) (k : Kind) (a b : Op) (cf : Conf) : Prop where
   kind : cf.s.kind = k
   ta : cf.pa ∈ threadsOf k a
   tb : cf.pb ∈ threadsOf k b
-  cmdA : needsCmd cf.pa = true → cf.s.cmd = true
-  cmdB : needsCmd cf.pb = true → cf.s.cmd = true
+  cmdA : needsCmd cf.pa = true → cmdOk c cf.s
+  cmdB : needsCmd cf.pb = true → cmdOk c cf.s
   okA : ∀ r, cf.ra = some r → r.stuck = false
   okB : ∀ r, cf.rb = some r → r.stuck = false
 
-theorem safe_move (k : Kind) (hk : k ≠ .ctl) (a b : Op) (hn : noKillSpawn k (.par a b) = true)
-    (cf : Conf) (ch : Bool) (g : Safe k a b cf) : ∃ cf', cf.move codeCfg ch = .ok cf' ∧ Safe k a b cf' := by
-  simp only [noKillSpawn, Bool.and_eq_true, Bool.not_eq_true', Bool.or_eq_false_iff, Bool.and_eq_false_imp,
+theorem safe_move (c : Cfg) (hrep : c.Repaired) (k : Kind) (hk : k ≠ .ctl) (a b : Op)
+    (hn : safeItem c k (.par a b) = true)
+    (cf : Conf) (ch : Bool) (g : Safe c k a b cf) : ∃ cf', cf.move c ch = .ok cf' ∧ Safe c k a b cf' := by
+  simp only [safeItem, Bool.and_eq_true, Bool.or_eq_true, Bool.not_eq_true', Bool.or_eq_false_iff, Bool.and_eq_false_imp,
     decide_eq_true_eq] at hn
-  obtain ⟨⟨ra, rb⟩, hab, hba⟩ := hn
+  obtain ⟨⟨ra, rb⟩, hown⟩ := hn
   obtain ⟨kind, ta, tb, cmdA, cmdB, okA, okB⟩ := g
   simp only [Conf.move]
   split
@@ -605,14 +1016,16 @@ theorem safe_move (k : Kind) (hk : k ≠ .ctl) (a b : Op) (hn : noKillSpawn k (.
     | nil => exact ⟨cf, rfl, ⟨kind, ta, tb, cmdA, cmdB, okA, okB⟩⟩
     | cons p rest =>
       rw [hpa] at ta cmdA
-      obtain ⟨s', ans, drop, hp, hk', ht', hc', hans, hkeep⟩ := thread_move_safe k hk a ra cf.s kind p rest ta cmdA
+      obtain ⟨s', ans, drop, hp, hk', ht', hc', hans, hkeep⟩ := thread_move_safe c hrep k hk a ra cf.s kind p rest ta cmdA
       simp only [hp]
       refine ⟨_, rfl, ⟨hk', ht', tb, hc', ?_, ?_, okB⟩⟩
       · intro hb
-        by_cases ea : a = .kill
-        · have := needsCmd_plain k b (hab ea) cf.pb tb
-          simp [this] at hb
-        · exact hkeep ea (cmdB hb)
+        rcases hown with ho | ⟨hab, _⟩
+        · exact Or.inr ho
+        · by_cases ea : a = .kill
+          · have := needsCmd_plain k b (hab ea) cf.pb tb
+            simp [this] at hb
+          · exact hkeep ea (cmdB hb)
       · intro r hr'
         cases ans with
         | none => exact okA r (by simpa using hr')
@@ -621,24 +1034,26 @@ theorem safe_move (k : Kind) (hk : k ≠ .ctl) (a b : Op) (hn : noKillSpawn k (.
     | nil => exact ⟨cf, rfl, ⟨kind, ta, tb, cmdA, cmdB, okA, okB⟩⟩
     | cons p rest =>
       rw [hpb] at tb cmdB
-      obtain ⟨s', ans, drop, hp, hk', ht', hc', hans, hkeep⟩ := thread_move_safe k hk b rb cf.s kind p rest tb cmdB
+      obtain ⟨s', ans, drop, hp, hk', ht', hc', hans, hkeep⟩ := thread_move_safe c hrep k hk b rb cf.s kind p rest tb cmdB
       simp only [hp]
       refine ⟨_, rfl, ⟨hk', ta, ht', ?_, hc', okA, ?_⟩⟩
       · intro ha
-        by_cases eb : b = .kill
-        · have hsa : spawns k a = false := by
-            cases hsa : spawns k a
-            · rfl
-            · exact absurd eb (by simpa using hba hsa)
-          have := needsCmd_plain k a hsa cf.pa ta
-          simp [this] at ha
-        · exact hkeep eb (cmdA ha)
+        rcases hown with ho | ⟨_, hba⟩
+        · exact Or.inr ho
+        · by_cases eb : b = .kill
+          · have hsa : spawns k a = false := by
+              cases hsa : spawns k a
+              · rfl
+              · exact absurd eb (by simpa using hba hsa)
+            have := needsCmd_plain k a hsa cf.pa ta
+            simp [this] at ha
+          · exact hkeep eb (cmdA ha)
       · intro r hr'
         cases ans with
         | none => exact okB r (by simpa using hr')
         | some r' => simp at hr'; exact hans r (by rw [hr'])
 
-theorem safe_start (k : Kind) (s : St) (hs : s.kind = k) (a b : Op) : Safe k a b (parStart s a b) := by
+theorem safe_start (c : Cfg) (k : Kind) (s : St) (hs : s.kind = k) (a b : Op) : Safe c k a b (parStart s a b) := by
   have h1 : ∀ op, partsOf k op ∈ threadsOf k op := by
     intro op; simp only [threadsOf]; cases h : partsOf k op <;> simp [tailsOf]
   have h2 : ∀ op, needsCmd (partsOf k op) = false := by
@@ -648,10 +1063,11 @@ theorem safe_start (k : Kind) (s : St) (hs : s.kind = k) (a b : Op) : Safe k a b
 theorem noStuckI_push (r : IRes) (o : IOutcome) : noStuckI (o.push r).res = (!r.stuck && noStuckI o.res) := by
   simp [noStuckI, IOutcome.push]
 
-/-- every run of a schedule without a KILL overlapping a starting child: no crash, no hang, the loop goes on — in
-    the code as it is, for basic tasks, hook tasks and tasks without data -/
-theorem runFromI_noStuck (k : Kind) (hk : k ≠ .ctl) (items : List Item) (hn : items.all (noKillSpawn k) = true) :
-    ∀ (s : St), s.kind = k → ∀ o ∈ runFromI codeCfg s items, noStuckI o.res = true := by
+/-- every run of a schedule of safe items: no crash, no hang, the loop goes on — for basic tasks, hook tasks and
+    tasks without data, in every configuration with the three repairs -/
+theorem runFromI_noStuck (c : Cfg) (hrep : c.Repaired) (k : Kind) (hk : k ≠ .ctl) (items : List Item)
+    (hn : items.all (safeItem c k) = true) :
+    ∀ (s : St), s.kind = k → ∀ o ∈ runFromI c s items, noStuckI o.res = true := by
   induction items with
   | nil =>
     intro s hs o ho
@@ -662,7 +1078,7 @@ theorem runFromI_noStuck (k : Kind) (hk : k ≠ .ctl) (items : List Item) (hn : 
     intro s hs o ho
     cases it with
     | one op =>
-      have hns := step_code_not_stuck s op (hs ▸ hk)
+      have hns := step_rep_not_stuck c hrep s op (hs ▸ hk)
       simp only [runFromI] at ho
       split at ho
       · simp only [List.mem_map] at ho
@@ -684,8 +1100,8 @@ theorem runFromI_noStuck (k : Kind) (hk : k ≠ .ctl) (items : List Item) (hn : 
         rw [noStuckI_push, ih hn.2 s hs o' ho']; rfl
       · simp only [List.mem_flatMap] at ho
         obtain ⟨po, hpo, ho⟩ := ho
-        obtain ⟨cf, g, e | e⟩ := parOutcomes_safe codeCfg (Safe k a b) s a b
-          (fun cf ch g => safe_move k hk a b hn.1 cf ch g) (safe_start k s hs a b) hpo
+        obtain ⟨cf, g, e | e⟩ := parOutcomes_safe c (Safe c k a b) s a b
+          (fun cf ch g => safe_move c hrep k hk a b hn.1 cf ch g) (safe_start c k s hs a b) hpo
         all_goals
           subst e
           simp only [List.mem_map] at ho
@@ -701,14 +1117,16 @@ theorem runFromI_noStuck (k : Kind) (hk : k ≠ .ctl) (items : List Item) (hn : 
           rw [noStuckI_push, ih hn.2 _ (by simpa using g.kind) o' ho']
           simp [IRes.stuck, hra, hrb]
 
-theorem runI_noStuck (k : Kind) (hk : k ≠ .ctl) (b : Beh) (items : List Item) (hn : items.all (noKillSpawn k) = true) :
-    ∀ o ∈ runI codeCfg k b items, noStuckI o.res = true := by
+theorem runI_noStuck (c : Cfg) (hrep : c.Repaired) (k : Kind) (hk : k ≠ .ctl) (b : Beh) (items : List Item)
+    (hn : items.all (safeItem c k) = true) :
+    ∀ o ∈ runI c k b items, noStuckI o.res = true := by
   intro o ho
-  have hl : (init codeCfg k b).2.stuck = false := by
-    have h := init_halts codeCfg k b
-    have hc : launchCrashes codeCfg k b = false := by simp [launchCrashes, codeCfg]
+  have hl : (init c k b).2.stuck = false := by
+    have h := init_halts c k b
+    have hc : launchCrashes c k b = false := by
+      cases k <;> simp_all [launchCrashes, hrep.launch]
     rw [hc] at h
-    rw [init_ok codeCfg k b h]; rfl
+    rw [init_ok c k b h]; rfl
   simp only [runI] at ho
   split at ho
   · simp only [List.mem_singleton] at ho
@@ -716,7 +1134,7 @@ theorem runI_noStuck (k : Kind) (hk : k ≠ .ctl) (b : Beh) (items : List Item) 
     simp [noStuckI, IRes.stuck, hl]
   · simp only [List.mem_map] at ho
     obtain ⟨o', ho', rfl⟩ := ho
-    rw [noStuckI_push, runFromI_noStuck k hk items hn _ (init_kind codeCfg k b) o' ho']
+    rw [noStuckI_push, runFromI_noStuck c hrep k hk items hn _ (init_kind c k b) o' ho']
     simp [IRes.stuck, hl]
 
 /-! ### the parts of a request, run one after the other, are the step of the sequential model; an overlap has the
@@ -744,6 +1162,24 @@ theorem prepS_spawn (s : St) (h : s.beh.startFails = true) : prepS s = (spawn s)
 theorem execS_spawn (s : St) (h : s.beh.startFails = false) : execS (prepS s) = (spawn s).1 := by
   simp [prepS, execS, spawn, h]
 
+/-- the request served after its own look-up found the task (and, for a KILL of the repaired handler, took the
+    entry out): what `step` does -/
+theorem serve_claim (c : Cfg) (s : St) (op : Op) (ha : s.active = true) :
+    (serve c (claim c s op) op).2 = (step c s op).2 ∧
+    ((step c s op).2.halts = false → (serve c (claim c s op) op).1 = (step c s op).1) := by
+  simp only [claim]
+  split
+  · rename_i hcond
+    simp only [Bool.and_eq_true, decide_eq_true_eq] at hcond
+    obtain ⟨_, rfl⟩ := hcond
+    have e : ({ ({ s with active := false } : St) with active := true } : St) = s := withActive_of_active s ha
+    constructor
+    · rw [serve_snd, e]
+    · intro hh
+      rw [serve_held_kill c { s with active := false } rfl (by rw [serve_snd, e]; exact hh), e]
+  · rw [serve_eq_step c s op ha]
+    exact ⟨rfl, fun _ => rfl⟩
+
 /-- One request alone: look-up and parts in a row give exactly `step`. -/
 theorem runThread_is_step (c : Cfg) (s : St) (op : Op) (hl : s.loop = true) (hr : op.isRequest = true) :
     runThread c (partsOf s.kind op) s none =
@@ -758,20 +1194,26 @@ theorem runThread_is_step (c : Cfg) (s : St) (op : Op) (hl : s.loop = true) (hr 
     · -- a request that starts a child
       rename_i hsp
       have hbl : s.kind.basicLike = true := by cases hk : s.kind <;> simp_all [spawns, Kind.basicLike]
+      have hcl : claim c s op = s := by
+        apply claim_of_ne
+        intro e; subst e; cases hk : s.kind <;> simp [spawns, hk] at hsp
       cases hf : s.beh.startFails
       · have e := execS_spawn s hf
         cases hk : s.kind <;> simp [hk, spawns] at hsp
         · subst hsp
-          simp [runThread, pstep, hl, ha, Kind.basicLike, prepS, execS, hf, step, hk, spawn, spawnAnswer, Res.halts]
+          simp [runThread, pstep, hl, ha, hcl, Kind.basicLike, prepS, execS, hf, step, hk, spawn, spawnAnswer, Res.halts]
         · subst hsp
-          simp [runThread, pstep, hl, ha, Kind.basicLike, prepS, execS, hf, step, hk, spawn, spawnAnswer, Res.halts]
+          simp [runThread, pstep, hl, ha, hcl, Kind.basicLike, prepS, execS, hf, step, hk, spawn, spawnAnswer, Res.halts]
       · cases hk : s.kind <;> simp [hk, spawns] at hsp
         · subst hsp
-          simp [runThread, pstep, hl, ha, Kind.basicLike, prepS, hf, step, hk, spawn, spawnAnswer, Res.halts]
+          simp [runThread, pstep, hl, ha, hcl, Kind.basicLike, prepS, hf, step, hk, spawn, spawnAnswer, Res.halts]
         · subst hsp
-          simp [runThread, pstep, hl, ha, Kind.basicLike, prepS, hf, step, hk, spawn, spawnAnswer, Res.halts]
-    · simp only [runThread, pstep, hl, ha, Bool.not_true, Bool.false_eq_true, ↓reduceIte, serve_eq_step c s op ha]
-      cases hh : (step c s op).2.halts <;> simp
+          simp [runThread, pstep, hl, ha, hcl, Kind.basicLike, prepS, hf, step, hk, spawn, spawnAnswer, Res.halts]
+    · have hsc := serve_claim c s op ha
+      simp only [runThread, pstep, hl, ha, Bool.not_true, Bool.false_eq_true, ↓reduceIte, hsc.1]
+      cases hh : (step c s op).2.halts
+      · simp [hsc.2 hh]
+      · simp
 
 theorem runChoices_done (c : Cfg) (chs : List Bool) (cf : Conf) (ha : cf.pa = []) (hb : cf.pb = []) :
     runChoices c chs cf = .ok cf := by
